@@ -5,7 +5,46 @@
 use crate::core::*;
 use crate::rng::Rng;
 use cosmwasm_std::{Order, Storage};
-use cw_multi_test::App;
+use cosmwasm_std::testing::MockApi;
+use cosmwasm_std::Empty;
+use cw_multi_test::{AppBuilder, BankKeeper, DistributionKeeper, FailingModule, GovFailingModule, IbcFailingModule, StakeKeeper, StargateFailing, WasmKeeper};
+
+/// The base store under the views: a user-supplied store (AppBuilder::with_storage) that is an ordered map and
+/// nothing else — unlike cosmwasm_std's MemoryStorage it also keeps empty values, so a view's set(key, "") is observable.
+#[derive(Default)]
+pub struct LooseStore(BTreeMap<Vec<u8>, Vec<u8>>);
+
+impl Storage for LooseStore {
+    fn get(&self, key: &[u8]) -> Option<Vec<u8>> {
+        self.0.get(key).cloned()
+    }
+    fn range<'a>(&'a self, start: Option<&[u8]>, end: Option<&[u8]>, order: Order) -> Box<dyn Iterator<Item = (Vec<u8>, Vec<u8>)> + 'a> {
+        if let (Some(s), Some(e)) = (start, end) {
+            if s > e {
+                return Box::new(std::iter::empty());
+            }
+        }
+        let lo = start.map_or(std::ops::Bound::Unbounded, |s| std::ops::Bound::Included(s.to_vec()));
+        let hi = end.map_or(std::ops::Bound::Unbounded, |e| std::ops::Bound::Excluded(e.to_vec()));
+        let it = self.0.range((lo, hi)).map(|(k, v)| (k.clone(), v.clone()));
+        match order {
+            Order::Ascending => Box::new(it),
+            Order::Descending => Box::new(it.rev()),
+        }
+    }
+    fn set(&mut self, key: &[u8], value: &[u8]) {
+        self.0.insert(key.to_vec(), value.to_vec());
+    }
+    fn remove(&mut self, key: &[u8]) {
+        self.0.remove(key);
+    }
+}
+
+pub type App = cw_multi_test::App<BankKeeper, MockApi, LooseStore, FailingModule<Empty, Empty, Empty>, WasmKeeper<Empty, Empty>, StakeKeeper, DistributionKeeper, IbcFailingModule, GovFailingModule, StargateFailing>;
+
+pub fn new_app() -> App {
+    AppBuilder::new().with_storage(LooseStore::default()).build(|_, _, _| {})
+}
 use serde::{Deserialize, Serialize};
 use std::collections::BTreeMap;
 
@@ -300,7 +339,7 @@ fn show_path(p: &[Vec<u8>]) -> Vec<String> {
 }
 
 pub fn run_case(case: &Case, rep: &mut Report) -> Option<(String, String)> {
-    let mut app = App::default();
+    let mut app = new_app();
     let mut raw = Map::new();
     let mut run = Run { rep, rng: Rng::new(case.check_seed), failed: None };
     for (i, op) in case.ops.iter().enumerate() {
@@ -569,7 +608,8 @@ pub fn gen_random(rng: &mut Rng, allow_huge: bool) -> Case {
         let a = access(rng, &p);
         let k = gen_key(rng, &paths);
         counter += 1;
-        let v = hex(format!("v{}", counter).as_bytes());
+        // now and then the empty value (the base store keeps it; a view hands it through like any other)
+        let v = if rng.chance(1, 12) { String::new() } else { hex(format!("v{}", counter).as_bytes()) };
         match rng.below(20) {
             0..=8 => ops.push(VOp::Set { path: hexp(&p), access: a, key: hex(&k), value: v }),
             9..=11 => ops.push(VOp::Remove { path: hexp(&p), access: a, key: hex(&k) }),
